@@ -52,7 +52,8 @@ fn random_op(rng: &mut common::Rng) -> tlv::Op {
 
 fn mutate_object(entry: u8, obj: &mut Vec<u8>, rng: &mut common::Rng, max: usize) {
     let donor = |a: u32| DONORS[a as usize % DONORS.len()].to_vec();
-    let n = 1 + rng.below(3);
+    // libFuzzer stacks up to -mutate_depth calls of the mutator on one input
+    let n = if rng.below(5) == 0 { 2 } else { 1 };
     if entry == walk::TAL {
         // mutate the key info inside the base64 block, keep the text around it
         if let Some((head, b64)) = tlv::split_tal(obj) {
